@@ -2,7 +2,9 @@
 """Run /verif checks against the seeded breaking changes in /verif/seeded/<id>/.
 
     python3 tools/seeded.py                 # all seeded changes, quick tier of the property's check
-    python3 tools/seeded.py <id> [--tier thorough] [--props C04,C05]
+    python3 tools/seeded.py <id> [--tier thorough] [--props C04,C05] [--jobs 4] [--tests]
+    python3 tools/seeded.py --dir controls [...]   # the harmless rewrites in /verif/controls/<id>/:
+                                                    # here the expected verdict is OK (exit 0)
 
 Each change is applied to a scratch git worktree of /repo under /tmp (never to /repo),
 the demonstration is run on the clean and on the changed tree, the check(s) run with
@@ -53,7 +55,7 @@ def run_one(sid, tier, props_override=None):
         for p in props:
             e = dict(os.environ, VERIF_REPO=wt)
             r = sh(["python3", os.path.join(HERE, "check.py"), p, "--tier", tier], env=e, cwd=HERE)
-            lines = [l for l in r.stdout.splitlines() if l.startswith(("VIOLATION", "OK", "INFRA", "KNOWN"))]
+            lines = [l for l in r.stdout.splitlines() if l.startswith(("VIOLATION", "OK", "INFRA"))]
             detail = [l for l in r.stdout.splitlines() if l.startswith("  ")][:2]
             out["checks"][p] = dict(rc=r.returncode, line=(lines[0] if lines else r.stdout[-300:]), detail=detail)
     finally:
@@ -70,6 +72,21 @@ def main():
     if "--tests" in args:
         TESTS = True
         args.remove("--tests")
+    global SEEDED
+    jobs = 1
+    if "--dir" in args:
+        i = args.index("--dir")
+        SEEDED = os.path.join(HERE, args[i + 1])
+        del args[i:i + 2]
+    out_name = "RESULTS.json"
+    if "--out" in args:      # e.g. --out MATRIX.json --props all : every check against every change
+        i = args.index("--out")
+        out_name = args[i + 1]
+        del args[i:i + 2]
+    if "--jobs" in args:
+        i = args.index("--jobs")
+        jobs = int(args[i + 1])
+        del args[i:i + 2]
     tier = "quick"
     props = None
     ids = []
@@ -80,6 +97,8 @@ def main():
             i += 2
         elif args[i] == "--props":
             props = args[i + 1].split(",")
+            if props == ["all"]:
+                props = [f"C{k:02d}" for k in range(1, 21)]
             i += 2
         else:
             ids.append(args[i])
@@ -87,12 +106,13 @@ def main():
     if not ids:
         ids = sorted(x for x in os.listdir(SEEDED) if os.path.isdir(os.path.join(SEEDED, x)))
     results = []
-    for sid in ids:
-        r = run_one(sid, tier, props)
-        results.append(r)
-        print(json.dumps(r))
-        sys.stdout.flush()
-    path = os.path.join(SEEDED, "RESULTS.json")
+    from concurrent.futures import ThreadPoolExecutor
+    with ThreadPoolExecutor(jobs) as ex:
+        for r in ex.map(lambda sid: run_one(sid, tier, props), ids):
+            results.append(r)
+            print(json.dumps(r))
+            sys.stdout.flush()
+    path = os.path.join(SEEDED, out_name)
     old = {}
     if os.path.exists(path):
         old = {r["id"]: r for r in json.load(open(path))}
